@@ -19,7 +19,7 @@ from rustsrc import Source, AnchorLost, match_close
 
 NAME = 'GenStreamFaults'
 
-STORE_RE = re.compile(r'\b(set_conn_error_and_wake|set_conn_error|handle_connection_error_on_stream|handle_connection_error)\b')
+STORE_RE = re.compile(r'\b(set_conn_error_and_wake|set_conn_error|handle_connection_error_on_stream|handle_connection_error|set_closing|set_settings)\b')
 CLOSE_RE = re.compile(r'\b(close_connection|close_if_needed|\.close\()')
 VARIANTS = ['RemoteTerminate', 'ConnectionError', 'Undefined', 'StreamError', 'HeaderTooBig', 'RemoteClosing']
 STATUS = {'REQUEST_HEADER_FIELDS_TOO_LARGE': 431, 'BAD_REQUEST': 400, 'INTERNAL_SERVER_ERROR': 500, 'OK': 200,
@@ -78,6 +78,16 @@ def extract(repo):
         f['hq_term_code_is_peers'] = False
         c = codes_in(arms['StreamTerminated'])
         f['hq_term_const'] = c[0] if c else 'H3_INTERNAL_ERROR'
+    # the arm must be ONE expression: the StreamError value itself - no statement, branch or other call
+    arm = arms['StreamTerminated']
+    arm_body = arm[arm.index('=>') + 2:]
+    arm_body = re.sub(r'StreamErrorIncoming::\w+.*$', '', arm_body, flags=re.S).strip().rstrip(',').strip()
+    norm = re.sub(r'\s+', '', arm_body)
+    f['hq_term_pure'] = bool(re.fullmatch(r'StreamError::RemoteTerminate\{code:Code::from\(%s\),?\}' % binder, norm))
+    f['hq_term_branches'] = bool(re.search(r'\b(if|match|while|for|loop)\b|self\.|;', arm_body))
+    una = arms['Unknown']
+    una_body = re.sub(r'\s+', '', una[una.index('=>') + 2:]).rstrip('}').rstrip(',')
+    f['hq_unknown_pure'] = bool(re.fullmatch(r'\{?StreamError::Undefined\(\w+\)\}?,?\}?', una_body)) and not STORE_RE.search(una)
     body, spans['handle_connection_error_on_stream'] = src.fn_body('handle_connection_error_on_stream')
     f['hcs_stores'] = bool(re.search(r'\bset_conn_error_and_wake\b|\bset_conn_error\b', body))
     body, spans['handle_frame_stream_error_on_request_stream'] = src.fn_body('handle_frame_stream_error_on_request_stream', nth=1)
@@ -252,10 +262,21 @@ def extract(repo):
     b, spans['send_trailers'] = src.fn_body('send_trailers', after=src.text.index('pub struct RequestStream'))
     f['send_trailers_err_via_hq'] = bool(re.search(r'stream::write\([^;]*\)\s*\.await\s*\.map_err\(\|e\|\s*self\.handle_quic_stream_error\(e\)\)', b, re.S))
     f['send_trailers_limit_cmp'] = bool(re.search(r'if\s+mem_size\s*>\s*max_mem_size', b))
-    for fn in ('send_data', 'finish'):
+    HQ = r'\.map_err\(\|e\|\s*self\.handle_quic_stream_error\(e\)\)'
+    for fn, want in (('send_data', 1), ('finish', 2)):
         b, spans[fn] = src.fn_body(fn, after=src.text.index('pub struct RequestStream'))
-        f['%s_err_via_hq' % fn] = bool(re.search(r'map_err\(\|e\|\s*self\.handle_quic_stream_error\(e\)\)', b)) and \
-            not re.search(r'handle_connection_error', b)
+        # EVERY error mapping of the function has exactly the pass-through form, and nothing in it touches shared state
+        n_all, n_hq = len(re.findall(r'\.map_err\(', b)), len(re.findall(HQ, b))
+        f['%s_err_via_hq' % fn] = (n_all == n_hq == want) and not STORE_RE.search(b) and not CLOSE_RE.search(b)
+    b = spans and src.fn_body('finish', after=src.text.index('pub struct RequestStream'))[0]
+    m = re.search(r'if\s+self\.send_grease_frame\s*\{(.*?)self\.send_grease_frame\s*=\s*false\s*;\s*\}(.*)$', b, re.S)
+    if not m:
+        raise AnchorLost('finish: grease block')
+    f['finish_grease_first'] = bool(re.search(r'stream::write\([^;]*Frame::Grease\)', m.group(1))) and \
+        bool(re.search(r'poll_finish', m.group(2))) and not re.search(r'poll_finish', m.group(1))
+    b2 = src.fn_body('send_trailers', after=src.text.index('pub struct RequestStream'))[0]
+    # send_trailers: one encode failure site (a local encoder error: not peer-reachable) + one write
+    f['send_trailers_maps'] = len(re.findall(r'\.map_err\(', b2)) == 2 and len(re.findall(HQ, b2)) == 1
     return f, spans
 
 
@@ -279,6 +300,8 @@ def render(f):
         L.append('Definition hq_%s_variant : sevariant := V%s.' % (n, f['hq_%s_variant' % a]))
     L += ['Definition hq_term_code_is_peers : bool := %s.' % b(f['hq_term_code_is_peers']),
           'Definition hq_term_const : N := %s.' % f['hq_term_const'],
+          'Definition hq_term_pure : bool := %s.' % b(f['hq_term_pure'] and not f['hq_term_branches']),
+          'Definition hq_unknown_pure : bool := %s.' % b(f['hq_unknown_pure']),
           'Definition hcs_stores : bool := %s.' % b(f['hcs_stores']),
           '(* handle_frame_stream_error_on_request_stream *)',
           'Definition fse_quic_via_hq : bool := %s.' % b(f['fse_quic_via_hq']),
@@ -328,5 +351,7 @@ def render(f):
           'Definition send_trailers_err_via_hq : bool := %s.' % b(f['send_trailers_err_via_hq']),
           'Definition send_trailers_limit_cmp : bool := %s.' % b(f['send_trailers_limit_cmp']),
           'Definition send_data_err_via_hq : bool := %s.' % b(f['send_data_err_via_hq']),
-          'Definition finish_err_via_hq : bool := %s.' % b(f['finish_err_via_hq'])]
+          'Definition finish_err_via_hq : bool := %s.' % b(f['finish_err_via_hq']),
+          'Definition finish_grease_first : bool := %s.' % b(f['finish_grease_first']),
+          'Definition send_trailers_maps : bool := %s.' % b(f['send_trailers_maps'])]
     return '\n'.join(L) + '\n'
